@@ -259,14 +259,17 @@ func c14Normalize(x *c14Ctr, profileMutated bool) {
 }
 
 type c14Pod struct {
-	Ctrs      []c14Ctr // regular containers first, then init containers
-	Labels    map[string]string
-	Annos     map[string]string // without the extended-resource-spec annotation
-	Marking   string            // "label-BE", "label-<other>", "no-label", "no-label+anno", ...
-	BE        int               // +1 definitely BE, -1 definitely not BE, 0 not decided by the koordinator QoS label
-	Shape     string
-	pod       *corev1.Pod
-	fullAnnos map[string]string
+	Ctrs    []c14Ctr // regular containers first, then init containers
+	Labels  map[string]string
+	Annos   map[string]string // without the extended-resource-spec annotation
+	Marking string            // "label-BE", "label-<other>", "no-label", "no-label+anno", ...
+	BE      int               // +1 definitely BE, -1 definitely not BE, 0 not decided by the koordinator QoS label
+	Shape   string
+	// set by the stale-annotation unit: the annotation was replaced by something the webhook would not write for this spec
+	StaleAnno   string
+	AnnoDiffers bool
+	pod         *corev1.Pod
+	fullAnnos   map[string]string
 }
 
 func c14GenPod(t *rapid.T) *c14Pod {
@@ -810,6 +813,13 @@ func TestVerifC14Hooks(t *testing.T) {
 			po, cos = c14RunReconciler(p, pod, aggregated)
 			results = append(results, c14PathResult{"reconciler", po, cos})
 		}
+		c14Evaluate(c, t, pod, cfg, aggregated, results)
+	})
+}
+
+// c14Evaluate labels the case and applies the oracle to the responses collected on the given paths. It performs no draws.
+func c14Evaluate(c *vk.Case, t *rapid.T, pod *c14Pod, cfg *c14Cfg, aggregated bool, results []c14PathResult) {
+	{
 		caseStr := func() string { return fmt.Sprintf("%s rule{%s}", pod, cfg.Desc) }
 
 		// the containers the pod-level hook is given: regular containers declaring at least one batch resource
@@ -889,12 +899,20 @@ func TestVerifC14Hooks(t *testing.T) {
 		treatedBE := pod.BE == 1 || (pod.BE == 0 && anyTouched)
 		c.ClassIf(pod.BE == 0 && anyTouched, "undecided-marking-treated-as-BE")
 		c.ClassIf(pod.BE == 0 && !anyTouched, "undecided-marking-left-untouched")
-		if treatedBE && len(given) >= 2 && ((subMin && cfg.Enabled) || unlimCPU || unlimMem) {
+		if pod.StaleAnno != "" {
+			// stale-annotation unit: non-trivial = BE pod with declared batch resources whose annotation disagrees with the spec
+			if treatedBE && len(given) >= 1 && pod.AnnoDiffers {
+				c.NonTrivial(pod.String(), cfg.Desc)
+			}
+		} else if treatedBE && len(given) >= 2 && ((subMin && cfg.Enabled) || unlimCPU || unlimMem) {
 			c.NonTrivial(pod.String(), cfg.Desc)
 		}
 		if c.WantSample() {
-			c.Sample(map[string]any{"pod": pod.String(), "rule": cfg.Desc, "proxy": fmt.Sprint(results[0].Pod, results[0].Ctrs),
-				"nri": fmt.Sprint(results[1].Pod, results[1].Ctrs), "reconciler": fmt.Sprint(results[2].Pod, results[2].Ctrs)})
+			sm := map[string]any{"pod": pod.String(), "rule": cfg.Desc}
+			for _, r := range results {
+				sm[r.Path] = fmt.Sprint(r.Pod, r.Ctrs)
+			}
+			c.Sample(sm)
 		}
 
 		// ----- pods that are not best-effort are left untouched
@@ -1091,5 +1109,5 @@ func TestVerifC14Hooks(t *testing.T) {
 				return
 			}
 		}
-	})
+	}
 }
